@@ -290,7 +290,7 @@ def run_random(ctx, d, emb, exe, tdir, replay_base, nprog, nsched):
     predicted from the model's answers through the wrapper semantics of interface.scm."""
     rng = ctx.rng
     acc = dict(feats={}, found={}, diverge=None, outcome_diff=None, n_lines=0, n_traces=0, n_outside=0, n_pred=0, n_gap=0,
-               n_df=0, runs=0, first=None, hangs=0, corrupt=[], nondf_hangs=0)
+               n_df=0, runs=0, first=None, hangs=0, nondf_hangs=0)
     # corpus first: programs that reach the situations missed in round 1 (corpus/C11/*.json)
     cdir = os.path.join(HERE, "..", "corpus", "C11")
     cps, csc = [], []
@@ -337,19 +337,13 @@ def run_random(ctx, d, emb, exe, tdir, replay_base, nprog, nsched):
             ctx.broken("correspondence:wrapper-outcome", msg + "; program %s schedule %s" % (p["expr"], sc[:200]), replay=rp)
     if acc["first"]:
         ctx.sample(acc["first"])
-    # the minimised request batch on which the collector sweeps a live value (F-C11-2): recorded, not judged
+    # regression of the harness itself: on this request batch the result of request 9 used to be swept while it was written,
+    # because embed_c11.c held it in an unregistered C local (round 2, found by C02's triage); it is gc-preserved now
     gb = os.path.join(cdir, "gc-live-value-swept.batch")
     if os.path.exists(gb):
-        try:
-            outs = run_batch(d, emb, [tuple(r) for r in json.load(open(gb))], limit=6)
-            ctx.cov["gc_live_value_swept_batch_reproduces"] = any(o and "#<" in o for o in outs)
-        except Exception as e:
-            ctx.cov["gc_live_value_swept_batch_reproduces"] = "error: %s" % e
-    ctx.cov["random_runs_with_swept_live_value"] = len(acc["corrupt"])
-    if acc["corrupt"]:
-        c = acc["corrupt"][0]
-        ctx.note("F-C11-2 (not judged by C11): %d random-program run(s) returned a log in which a value had been replaced by an unrelated heap object "
-                 "(live value swept by the collector); first: schedule %s program %s result %s" % (len(acc["corrupt"]), c["schedule"][:80], c["program"], c["observed"]))
+        outs = run_batch(d, emb, [tuple(r) for r in json.load(open(gb))], limit=6)
+        if any(o and "#<" in o for o in outs):
+            ctx.broken("harness:embed_c11-result-not-rooted", "a request of corpus/C11/gc-live-value-swept.batch printed a swept value: %s" % [o[:200] for o in outs if o and "#<" in o][:1])
     return acc["n_lines"]
 
 
@@ -410,14 +404,7 @@ def _random_chunk(ctx, d, emb, exe, tdir, replay_base, progs, nsched, acc, sched
                 res = R.read_sexp(o)
             except Exception:
                 res = None
-            if "#<" in o and not o.startswith("EXC"):
-                # a logged value turned into an unrelated heap object: the collector swept a live value of the thread
-                # program (depends on the allocation history of the process, not on the schedule; reproduced standalone and
-                # under ASAN, see notes/C11.md (e) F-C11-2).  Memory safety of the collector is C02's clause, so this is
-                # recorded, not judged here.
-                acc["corrupt"].append(dict(program=p["expr"], schedule=sc, observed=o[:400]))
-                res = None
-            elif res is None or o.startswith("EXC"):
+            if res is None or o.startswith("EXC"):
                 hit("random-program:exception", expected="a result list", observed=o[:300])
                 res = None
             else:
